@@ -214,11 +214,15 @@ Definition sites (p : prog) (E : fname -> list lock) : list site :=
 
 Definition excuse := field -> fname -> fname -> bool.
 
+(* if-then-else, not orb: vm_compute is call-by-value and almost all pairs differ in the field *)
 Definition pair_ok (exc : excuse) (s1 s2 : site) : bool :=
-  negb (N.eqb (s_field s1) (s_field s2)) ||
-  negb (s_write s1 || s_write s2) ||
-  share (s_locks s1) (s_locks s2) ||
-  exc (s_field s1) (s_fn s1) (s_fn s2) || exc (s_field s1) (s_fn s2) (s_fn s1).
+  if N.eqb (s_field s1) (s_field s2) then
+    if s_write s1 || s_write s2 then
+      if share (s_locks s1) (s_locks s2) then true
+      else if exc (s_field s1) (s_fn s1) (s_fn s2) then true
+      else exc (s_field s1) (s_fn s2) (s_fn s1)
+    else true
+  else true.
 
 Definition pairs_ok (p : prog) (E : fname -> list lock) (exc : excuse) : bool :=
   let ss := sites p E in forallb (fun s1 => forallb (pair_ok exc s1) ss) ss.
